@@ -78,29 +78,7 @@ func VpH_C02_step() {
 	}
 	vp.Assert(b.fullMoves == wantFull, "fullmove-number-as-prescribed")
 
-	// en-passant target recorded iff some legal en-passant capture exists in the successor
-	wantEP := 0
-	dbl := piece == Pawn && (s.to-s.from == 16 || s.from-s.to == 16)
-	if dbl {
-		target := (s.from + s.to) / 2
-		oppBlack := s.stm == White
-		for _, df := range [2]int{-1, 1} {
-			f := s.to&7 + df
-			if f < 0 || f > 7 {
-				continue
-			}
-			cap := s.to>>3<<3 + f
-			if want.P[cap] == Pawn && want.Black[cap] == oppBlack {
-				m2 := want
-				m2.P[cap], m2.Black[cap] = NoPiece, false
-				m2.P[s.to], m2.Black[s.to] = NoPiece, false
-				m2.P[target], m2.Black[target] = Pawn, oppBlack
-				if !VpKingAttackedM(&m2, oppBlack) {
-					wantEP = target
-				}
-			}
-		}
-	}
+	wantEP := vpWantEP(&want, s.stm, s.from, s.to, piece)
 	vp.Assert(int(b.EnPassant) == wantEP, "en-passant-target-iff-legal-capture-exists")
 	// (the piece-count clause is invariant under the placement change asserted above: a capture removes a piece,
 	// a promotion turns a pawn into a piece; it is not re-asserted because it is a cardinality argument)
@@ -185,5 +163,86 @@ func VpH_C04_function() {
 	VpSetHistory(b, 2)
 	h2 := b.calculateHash()
 	vp.Assert(h1 == h2, "hash-is-a-function-of-the-position")
+	vp.Cover("end")
+}
+
+// VpH_C02_castles: the castling-rights update for EVERY (from, to) at once (both squares symbolic): after any move
+// of an own piece that does not capture a king, exactly the rights whose king or rook home square was touched
+// are lost. (The one-step harness asserts the same per concrete (from,to) case; this obligation removes the
+// sampling of the case split for this attribute.)
+func VpH_C02_castles() {
+	stm := Color(vp.Param("stm"))
+	b := VpSymBoard(stm)
+	vp.Assume(VpValid(b))
+	from, to := int(vp.Bits("from", 6)), int(vp.Bits("to", 6))
+	promo := Piece(vp.Bits("promo", 3))
+	vp.Assume(from != to)
+	vp.Assume(vpOwn(b, from, stm))
+	vp.Assume(b.SquaresToPiece[to] != King)
+	old := b.Castles
+	got := b.NewCastles(VpMove(from, to, promo))
+	touched := func(sq Square) bool { return from == int(sq) || to == int(sq) }
+	wantC := old
+	if touched(E1) {
+		wantC &^= ShortWhite | LongWhite
+	}
+	if touched(H1) {
+		wantC &^= ShortWhite
+	}
+	if touched(A1) {
+		wantC &^= LongWhite
+	}
+	if touched(E8) {
+		wantC &^= ShortBlack | LongBlack
+	}
+	if touched(H8) {
+		wantC &^= ShortBlack
+	}
+	if touched(A8) {
+		wantC &^= LongBlack
+	}
+	vp.Assert(got == wantC, "castling-rights-update-for-every-from-to")
+	vp.Cover("end")
+}
+
+// vpWantEP: the en-passant target the rules prescribe after the move: recorded iff the move was a double pawn push
+// and some legal en-passant capture exists in the successor `want`.
+func vpWantEP(want *VpPos, stm Color, from, to int, piece Piece) int {
+	wantEP := 0
+	dbl := piece == Pawn && (to-from == 16 || from-to == 16)
+	if dbl {
+		target := (from + to) / 2
+		oppBlack := stm == White
+		for _, df := range [2]int{-1, 1} {
+			f := to&7 + df
+			if f < 0 || f > 7 {
+				continue
+			}
+			cap := to>>3<<3 + f
+			if want.P[cap] == Pawn && want.Black[cap] == oppBlack {
+				m2 := *want
+				m2.P[cap], m2.Black[cap] = NoPiece, false
+				m2.P[to], m2.Black[to] = NoPiece, false
+				m2.P[target], m2.Black[target] = Pawn, oppBlack
+				if !VpKingAttackedM(&m2, oppBlack) {
+					wantEP = target
+				}
+			}
+		}
+	}
+	return wantEP
+}
+
+// VpH_C01_eptarget: positions reached by playing a double pawn push carry an en-passant target exactly when a legal
+// en-passant capture exists, so that the capture is (only then) among the playable moves of the successor.
+func VpH_C01_eptarget() {
+	s := vpStepSetup()
+	b := s.b
+	vp.Assume(VpLegal(b, s.from, s.to, s.promo))
+	want := VpMakeSpec(b, s.from, s.to, s.promo)
+	piece := b.SquaresToPiece[s.from]
+	wantEP := vpWantEP(&want, s.stm, s.from, s.to, piece)
+	b.MakeMove(s.m)
+	vp.Assert(int(b.EnPassant) == wantEP, "en-passant-target-iff-legal-capture-exists")
 	vp.Cover("end")
 }
